@@ -164,7 +164,8 @@ Qed.
 Lemma vdot_nonneg a m : length a = length m ->
   (forall i, 0 <= nthq a i) -> (forall i, 0 <= nthq m i) -> 0 <= vdot a m.
 Proof.
-  revert m; induction a as [|u a IHa]; intros [|v m] H At Mt; cbn [length] in *; try discriminate.
+  revert m; induction a as [|u a IHa]; intros [|v m] H At Mt; cbn [length] in *;
+    try (exfalso; discriminate H).
   - rewrite vdot_nil_l. lra.
   - rewrite vdot_cons.
     assert (U : 0 <= u) by exact (At 0%nat). assert (V : 0 <= v) by exact (Mt 0%nat).
@@ -176,7 +177,8 @@ Qed.
 Lemma vdot_ge_term a m w : length a = length m ->
   (forall i, 0 <= nthq a i) -> (forall i, 0 <= nthq m i) -> nthq a w * nthq m w <= vdot a m.
 Proof.
-  revert m w; induction a as [|y a IH]; intros [|z m] w H Ha Hm; cbn [length] in *; try discriminate.
+  revert m w; induction a as [|y a IH]; intros [|z m] w H Ha Hm; cbn [length] in *;
+    try (exfalso; discriminate H).
   - rewrite vdot_nil_l, nthq_nil. lra.
   - rewrite vdot_cons.
     assert (A0 : 0 <= y) by exact (Ha 0%nat).
